@@ -113,6 +113,13 @@ func (db *DB) Merge() error {
 				// 有效记录所属的批处理必然已提交, 重写为普通记录
 				// 否则重写后缺少批处理完成标识, 重启时会被丢弃
 				logRecord.BatchID = 0
+				// 重写文件的 id 不允许达到未参与 merge 的文件 id, 否则加载时会覆盖未参与 merge 的文件
+				// (例如原文件被批处理写满超过容量上限, 或重启后调小了文件容量上限), 此时放弃本次 merge
+				maxSize := datafile.GetLogRecordDiskSize(len(logRecord.Key), len(logRecord.Value))
+				if mergeDB.activeFile.Size()+int64(maxSize) > mergeDB.options.DataFileSize &&
+					mergeDB.activeFile.ID+1 >= nonMergeFileId {
+					return ErrMergeOutputTooLarge
+				}
 				// 将数据重写到 merge 临时目录中
 				pos, err := mergeDB.appendLogRecord(logRecord)
 				if err != nil {
